@@ -80,6 +80,40 @@ let run (op : string) (ty : string) (a : string array) : string res =
   | "next_step" ->
      let l = p_lut a.(0) in
      rmap (fun (t, okb) -> s_lut { nv = l.nv; tbl = t } ^ "|" ^ s_bool okb) (next_inplace l.nv l.tbl)
+  | "all_functions_jumps" | "all_functions_strided" ->
+     (* Iterator::nth / skip / step_by with their default meaning: nth(j) is j calls of next whose items are dropped (an
+        exhausted iterator ends the jump), then one more; skip(a) drops a items; step_by(s) takes the first item and then
+        every s-th one *)
+     let n = p_nat a.(0) in
+     (match d_all_functions n with
+      | Ok st0 ->
+         let st = ref st0 and bad = ref None in
+         let next () = (match iter_next !st with
+                        | Ok (it, st') -> st := st'; it
+                        | PanicAlways -> bad := Some PanicAlways; None
+                        | PanicDebug -> bad := Some PanicDebug; None) in
+         let nth j = (let dead = ref false in
+                      for _ = 1 to j do if not !dead then (match next () with None -> dead := true | Some _ -> ()) done;
+                      if !dead then None else next ()) in
+         let show = (function Some l -> s_lut l | None -> "none") in
+         let items =
+           if base = "all_functions_jumps" then List.map (fun j -> show (nth (int_of_n j))) (p_nlist a.(1))
+           else begin
+             let sk = int_of_n (p_n a.(1)) and stp = int_of_n (p_n a.(2)) and k = int_of_n (p_n a.(3)) in
+             let dead = ref false in
+             for _ = 1 to sk do if not !dead then (match next () with None -> dead := true | Some _ -> ()) done;
+             let acc = ref [] and fin = ref !dead in
+             for i = 1 to k do
+               if not !fin then (match (if i = 1 then next () else nth (stp - 1)) with
+                                 | Some l -> acc := s_lut l :: !acc
+                                 | None -> fin := true)
+             done;
+             List.rev !acc
+           end in
+         (match !bad with Some PanicAlways -> PanicAlways | Some _ -> PanicDebug
+                        | None -> ok (if items = [] then "none" else String.concat ";" items))
+      | PanicAlways -> PanicAlways
+      | PanicDebug -> PanicDebug)
   | "all_functions_after" ->
      (* the whole run, then [extra] more calls: the number of items, then what each further call returns *)
      let n = p_nat a.(0) and extra = int_of_string a.(1) in
@@ -170,6 +204,8 @@ let run (op : string) (ty : string) (a : string array) : string res =
   | "c.eq" -> ok (s_bool (cube_eqb (p_cube a.(0)) (p_cube a.(1))))
   | "c.cmp" -> ok (show_cmp (cube_cmp (p_cube a.(0)) (p_cube a.(1))))
   | "c.display" -> ok (s_bytes (cube_display (p_cube a.(0))))
+  (* C16 "distinct cubes print distinct text": the texts of two cubes are equal exactly when the cubes are *)
+  | "c.display_distinct" -> let e = cube_eqb (p_cube a.(0)) (p_cube a.(1)) in ok (s_bool e ^ "|" ^ s_bool e)
   (* ecubes *)
   | "e.one" -> ok (s_ecube ecube_one)
   | "e.zero" -> ok (s_ecube ecube_zero)
